@@ -21,12 +21,17 @@ macro_rules! proofs {
 }
 
 pub mod refmodel;
+pub mod strs;
 pub mod c01_flags;
 pub mod c04_action;
+pub mod c18_desc;
+pub mod c18_names;
 
 pub fn all() -> Vec<(&'static str, fn())> {
 	let mut v = Vec::new();
 	v.extend_from_slice(c01_flags::LIST);
 	v.extend_from_slice(c04_action::LIST);
+	v.extend_from_slice(c18_desc::LIST);
+	v.extend_from_slice(c18_names::LIST);
 	v
 }
